@@ -40,6 +40,17 @@ func (p *flowProto) genTrunc(r *rand.Rand, n int, w *bufio.Writer) {
 			ann = append(ann, cat(be16(sid), be16(4+len(p.encTplRec(t))), p.encTplRec(t))...)
 		}
 		badT := tpl{id: 400, fields: []fspec{{id: 8, ln: 4}, {id: 9000 + r.Intn(5), ln: 4}, {id: 12, ln: 4}}}
+		if p.isIPFIX && r.Intn(2) == 0 {
+			// … or one that differs from an EARLIER, decodable definition of the same id only in an enterprise number: same
+			// element ids, same lengths, but (4242, 12) is in no information model. The earlier definition is announced in a
+			// datagram of its own; the re-announcement must replace it (a refresh taken for "unchanged" because ids and lengths
+			// agree leaves the old layout in force, and the set that must be skipped is decoded: seed C09-h)
+			hdrE, _ := p.header(r, ver)
+			early := tpl{id: 400, fields: []fspec{{id: 8, ln: 4}, {id: 12, ln: 4}, {id: 7, ln: 2}}}
+			fmt.Fprintf(w, "%s %s %s\tannounce\n", p.name, hx(addr), hx(cat(hdrE, be16(p.tplSet), be16(4+len(p.encTplRec(early))), p.encTplRec(early))))
+			emitted++
+			badT = tpl{id: 400, fields: []fspec{{id: 8, ln: 4}, {id: 12, ln: 4, ent: 4242}, {id: 7, ln: 2}}}
+		}
 		// … and, in the same set and in front of it (a 4-octet record at the very end of a set is taken for padding), a
 		// template record with field count 0 — the template withdrawal format of RFC 7011 section 8.1, which both decoders
 		// install as a template without fields: a data set for it cannot be decoded
@@ -141,7 +152,11 @@ func (p *flowProto) genTrunc(r *rand.Rand, n int, w *bufio.Writer) {
 				}
 				u = cat(be16(id), be16(4+len(body)), body)
 			default: // data for the template that names an element missing from the model
-				body = rndBytes(r, 12*(1+r.Intn(3)))
+				rl := 0
+				for _, f := range badT.fields {
+					rl += f.ln
+				}
+				body = rndBytes(r, rl*(1+r.Intn(3)))
 				u = cat(be16(400), be16(4+len(body)), body)
 			}
 			if r.Intn(3) == 0 && len(sets) > 0 {
